@@ -229,6 +229,42 @@ func inlineRound(pkgs []*packages.Package, overlay map[string][]byte, seq *int) 
 				il.helpers[obj] = &helper{key: key, sig: obj.Type().(*types.Signature), ftype: fd.Type, recv: fd.Recv, body: fd.Body, file: f, decl: fd}
 			}
 		}
+		// a helper that is also used as a value (passed to slices.SortFunc, stored in a table) has an
+		// identity some rule may compare (the same comparator sorts and de-duplicates): its calls stay
+		for _, f := range pk.Syntax {
+			callPos := map[*ast.Ident]bool{} // identifiers in call position
+			blank := map[*ast.Ident]bool{}   // `_ = name` left by an earlier round
+			ast.Inspect(f, func(n ast.Node) bool {
+				switch x := n.(type) {
+				case *ast.CallExpr:
+					switch fn := unparen(x.Fun).(type) {
+					case *ast.Ident:
+						callPos[fn] = true
+					case *ast.SelectorExpr:
+						callPos[fn.Sel] = true
+					}
+				case *ast.AssignStmt:
+					if x.Tok == token.ASSIGN && len(x.Lhs) == 1 && len(x.Rhs) == 1 {
+						if l, ok := x.Lhs[0].(*ast.Ident); ok && l.Name == "_" {
+							if r, ok := x.Rhs[0].(*ast.Ident); ok {
+								blank[r] = true
+							}
+						}
+					}
+				}
+				return true
+			})
+			ast.Inspect(f, func(n ast.Node) bool {
+				id, ok := n.(*ast.Ident)
+				if !ok || callPos[id] || blank[id] {
+					return true
+				}
+				if o := pk.TypesInfo.Uses[id]; o != nil && il.helpers[o] != nil {
+					delete(il.helpers, o)
+				}
+				return true
+			})
+		}
 		if len(il.helpers) == 0 {
 			continue
 		}
